@@ -1,4 +1,5 @@
 import Proofs.OalLex
+import Proofs.OalParseCase
 import PyxModel.Oal.LexGen
 
 /-!
@@ -107,5 +108,31 @@ example : ((lex mixedText).map (fun t => String.ofList t.kind)).take 6 = ["SELEC
 /-- the class name `A` and the variable `xs` are not keywords: re-spelling them changes the stream -/
 example : (lex "x = A;".toList).map (normTok Gen.OalLex.cfg) ≠ (lex "x = a;".toList).map (normTok Gen.OalLex.cfg) := by
   decide
+
+
+/-! parser level (model: the token-level statement / expression parser of C07, PyxModel/Oal/{Expr,Stmt}.lean, for
+    ANY precedence table): two token streams that differ only in the spelling of keyword lexemes parse to
+    trees that are equal after lower-casing exactly the spelling-carrying fields — select cardinality, unary /
+    binary operator, boolean literal, and the `self` keyword where it is used as an instance name —, they are
+    equal FIELD BY FIELD everywhere else (identifiers, literals, phrases, relationship ids are untouched),
+    and one is rejected exactly when the other is. -/
+
+theorem parser_case_respelling (t : Pyx.Oal.Tbl) (ts ts' : List Pyx.Oal.Tok) (h : Pyx.Oal.Respelling ts ts') :
+    (Pyx.Oal.parseStmts t ts').map Pyx.Oal.normCase = (Pyx.Oal.parseStmts t ts).map Pyx.Oal.normCase :=
+  Pyx.Oal.parseStmts_respelling t h
+
+theorem parser_case_fields (t : Pyx.Oal.Tbl) (ts ts' : List Pyx.Oal.Tok) (h : Pyx.Oal.SameButKeywords ts ts') :
+    (Pyx.Oal.parseStmts t ts').map Pyx.Oal.eraseCase = (Pyx.Oal.parseStmts t ts).map Pyx.Oal.eraseCase :=
+  Pyx.Oal.parseStmts_sameButKeywords t h
+
+theorem parser_case_reject_iff (t : Pyx.Oal.Tbl) (ts ts' : List Pyx.Oal.Tok) (h : Pyx.Oal.SameButKeywords ts ts') :
+    Pyx.Oal.parseStmts t ts' = none ↔ Pyx.Oal.parseStmts t ts = none :=
+  Pyx.Oal.parseStmts_reject_iff t h
+
+/-- the parser commutes with ANY re-spelling function that leaves non-keyword lexemes alone -/
+theorem parser_case_natural (t : Pyx.Oal.Tbl) (g : Pyx.Oal.Kind → String → String) (hg : Pyx.Oal.KwOnly g)
+    (ts : List Pyx.Oal.Tok) :
+    Pyx.Oal.parseStmts t (ts.map (Pyx.Oal.mapTok g)) = (Pyx.Oal.parseStmts t ts).map (Pyx.Oal.Block.mapKw g) :=
+  Pyx.Oal.parseStmts_mapTok t g hg ts
 
 end PyxProps.C08
